@@ -14,5 +14,7 @@ var HostileRunes = []string{
 	// backspace overstrike, CR LF, caret and backslash notations, HTML/XML, comments, percent and entity encodings
 	"\x1b[0m", "\x1b[1;31m", "\x1b[2J", "\x1b[?25l", "\x1b[38;5;196m", "\x1b[H", "\x1b[ q", "\x1b]0;t\x07", "\x1b]8;;http://x\x1b\\", "\x1b(B", "\x1bc", "\x1b[", "\x1bP1$r\x1b\\", "\u009b31m", "\x9b0m",
 	"a\x08b", "_\x08a", "\r\n", "\n\r", "^[[0m", "\\033[0m", "\\x1b[0m", "\\e[0m", "<b>", "</b>", "<!--x-->", "<![CDATA[x]]>", "<?x?>", "&lt;", "&#27;", "&#x1b;", "/*x*/", "//x", "--x", "#x", "%1b%5b0m", "%00", "%0a", "=1B", "=\r\n", "\\u001b", "\\0",
+	// decimal digits of other scripts (unicode.IsDigit says yes, strconv says no), other numerals, signs and separators
+	"\u0666", "\u06f6", "\u096c", "\u09ec", "\u0e56", "\uff16", "\U0001d7d4", "\u00b2", "\u2166", "\u2212", "\uff0b", "\u066b", "\uff0e", "\uff1a", "\uff08", "\uff09", "\uff1d",
 	"\xc2", "\xa0", "\x85", "\xe2\x80", "\xc0\x80", "\xed\xa0\x80", "\xf4\x90\x80\x80", "\xff", "\xfe\xff", "\xef\xbb", "\xe9",
 }
